@@ -106,6 +106,8 @@ func RunImpl(src string, cfg *Config) *ImplRun {
 				t := L.NewTable()
 				t.RawSetString("code", lua.LNumber(7))
 				L.Error(t, 1)
+			case "number":
+				L.Error(lua.LNumber(42), 1)
 			case "nil":
 				L.Error(lua.LNil, 1)
 			case "bool":
@@ -435,6 +437,8 @@ func RunModel(c *last.Chunk, cfg *Config) *ModelRun {
 				t := lref.NewTable()
 				t.Set("code", float64(7))
 				in.Throw(t)
+			case "number":
+				in.Throw(float64(42))
 			case "nil":
 				in.Throw(nil)
 			case "bool":
